@@ -159,7 +159,7 @@ def toksE : Expr → List String
   | .recLit tn es => annot ("[" :: toksArgs es ++ ["]"]) (.named tn)
   | .field r f => paren (toksE r ++ [".", f])
   | .setField r f v => paren (toksE r ++ "." :: f :: ":=" :: toksE v)
-  | .uniLit tn _ e => annot ("union" :: paren (toksE e)) (.named tn)
+  | .uniLit tn tag e => annot ("[" :: tag :: "==" :: toksE e ++ ["]"]) (.named tn)
   | .ucase u tag => paren (toksE u ++ ["case", tag])
   | .uget u tag => paren (toksE u ++ [".", tag])
   | .while c b => "while" :: toksE c ++ "repeat" :: blockWrap b (toksE b)
